@@ -26,7 +26,8 @@ type Case struct {
 
 	// s2h
 	Form    string `json:"form,omitempty"`     // return, assign, nested, nested-script, discard, defer, cond, pkgvar, expr
-	Assign  string `json:"assign,omitempty"`   // define, local, global
+	Assign  string `json:"assign,omitempty"`   // define, local, global, redeclare
+	Redecl  int    `json:"redecl,omitempty"`   // redeclare: the result position whose variable exists before the := and is captured by a pointer and a closure
 	Blank   []bool `json:"blank,omitempty"`    // assign: result positions assigned to _
 	ArgMode string `json:"arg_mode,omitempty"` // inline, local, global, call (each argument is the result of a script function), multicall (host.F(mkAll()))
 	HostVia string `json:"host_via,omitempty"` // "" (host.F(...)), local-var (hf := host.F; hf(...)), global-var
@@ -381,6 +382,18 @@ func (c *Case) runS2H() *failure {
 				op = " = "
 			}
 			body = append(body, strings.Join(lhs, ", ")+op+callx)
+		case c.Assign == "redeclare" && nout >= 2 && c.Redecl < nout:
+			// r0, r1 := host.F(...) where r1 exists already: it is assigned, not
+			// re-created, so a pointer to it and a closure over it taken before
+			// the statement see the result
+			j := c.Redecl
+			body = append(body, fmt.Sprintf("var %s %s", rnames[j], sig.Out[j].src()))
+			body = append(body, fmt.Sprintf("p%s := &%s", rnames[j], rnames[j]))
+			body = append(body, fmt.Sprintf("c%s := func() %s { return %s }", rnames[j], sig.Out[j].src(), rnames[j]))
+			body = append(body, strings.Join(rnames, ", ")+" := "+callx)
+			want := s.lit(sig.Out[j], stripFn(c.Rets[j]), false)
+			body = append(body, fmt.Sprintf("if !(%s) { Fail += \"r%d-ptr;\" }", s.eqCall(sig.Out[j], "(*p"+rnames[j]+")", want), j))
+			body = append(body, fmt.Sprintf("if !(%s) { Fail += \"r%d-closure;\" }", s.eqCall(sig.Out[j], "c"+rnames[j]+"()", want), j))
 		case c.Assign == "global":
 			for j := range lhs {
 				globals = append(globals, fmt.Sprintf("var %s %s", rnames[j], sig.Out[j].src()))
